@@ -125,6 +125,25 @@ fn main() {
                 writeln!(out, "{}", dump::doc_of_source(cfg, &src)).unwrap();
             }
         }
+        // HEX -> one hex digit per node in pre-order: bit0 disabled, bit1 has_comment, bit2 multiline, bit3 flavor
+        "attrs" => {
+            for line in stdin.lock().lines() {
+                let line = line.unwrap();
+                let src = unhex(line.trim());
+                let source = Source::detached(src);
+                let store = typstyle_core::AttrStore::new(source.root());
+                let mut s = String::new();
+                dump::attrs(source.root(), &store, &mut s);
+                writeln!(out, "{}", s).unwrap();
+            }
+        }
+        // W -> chain_width
+        "chainw" => {
+            for line in stdin.lock().lines() {
+                let w: usize = line.unwrap().trim().parse().unwrap();
+                writeln!(out, "{}", Config::new().with_width(w).chain_width()).unwrap();
+            }
+        }
         // W TAB REORDER HEX -> DOC \t HEX(doc.pretty(W), before post-processing) | err | panic
         "docr" => {
             for line in stdin.lock().lines() {
